@@ -11,7 +11,7 @@ Lemma rank_sel : forall s l s', closing s = true -> step_sel s l = Some s' ->
   closing s' = true /\ sel_rank s' < sel_rank s.
 Proof.
   intros s l s' C H.
-  destruct s as [lp0 sp0 lock0 args0 closing0 readers0 writers0 waker0 pend0 queue0 rdyr0 rdyw0 cbs0].
+  destruct s as [lp0 sp0 lock0 args0 closing0 readers0 writers0 waker0 pend0 queue0 rdyr0 rdyw0 cbs0 dead0].
   simpl in C. subst closing0. unfold sel_rank.
   destruct l; simpl in H; try discriminate; unfold must_wait, lock_free in H; simpl in H; break H; fin; simpl;
     try (split; [reflexivity|lia]).
@@ -22,7 +22,7 @@ Lemma rank_loop : forall s l s', Inv s -> closing s = true -> step_loop s l = So
   closing s' = true /\ sel_rank s' <= sel_rank s.
 Proof.
   intros s l s' I C H. pose proof (I_closing s I) as IC.
-  destruct s as [lp0 sp0 lock0 args0 closing0 readers0 writers0 waker0 pend0 queue0 rdyr0 rdyw0 cbs0].
+  destruct s as [lp0 sp0 lock0 args0 closing0 readers0 writers0 waker0 pend0 queue0 rdyr0 rdyw0 cbs0 dead0].
   simpl in *. subst closing0. unfold sel_rank.
   destruct l; try match goal with k : kind |- _ => destruct k end;
     simpl in H; try discriminate; unfold lock_free, notify, next_cb, user_pc, regs, set_regs in H; simpl in H; break H;
@@ -58,7 +58,7 @@ Proof.
     pose proof (IH s1 s' (inv_step _ _ _ I E) C1 H). simpl. lia.
 Qed.
 
-Lemma sel_rank_le9 : forall s, sel_rank s <= 9.
+Lemma sel_rank_le10 : forall s, sel_rank s <= 10.
 Proof. intros s. unfold sel_rank. destruct (sp s); lia. Qed.
 
 (* while close() is blocked in join(), the event-loop thread has no step ... *)
@@ -66,7 +66,7 @@ Lemma loop_blocked_in_join : forall s l, Inv s -> lp s = LCloseJoin -> sp s <> S
   step_loop s l = None.
 Proof.
   intros s l I E N1 N2. pose proof (I_pend s I) as IP.
-  destruct s as [lp0 sp0 lock0 args0 closing0 readers0 writers0 waker0 pend0 queue0 rdyr0 rdyw0 cbs0].
+  destruct s as [lp0 sp0 lock0 args0 closing0 readers0 writers0 waker0 pend0 queue0 rdyr0 rdyw0 cbs0 dead0].
   simpl in *. subst lp0. destruct pend0; [discriminate (IP eq_refl)|].
   destruct l; try match goal with k : kind |- _ => destruct k end; simpl; try reflexivity;
     repeat match goal with
@@ -97,7 +97,7 @@ Proof. intros s E D. unfold step. simpl. rewrite E, D. eauto. Qed.
 Definition mrel (m : mon) (s : state) : Prop :=
   m_started m = spawned s /\
   m_exited m = (match sp s with SDone => true | _ => false end) /\
-  m_insel m = (match sp s with SSelecting _ _ | SGot _ _ => true | _ => false end) /\
+  m_insel m = (match sp s with SSelecting _ _ | SErr | SGot _ _ => true | _ => false end) /\
   m_closed m = (match lp s with LClosed => true | _ => false end).
 
 Lemma mrel_init : mrel mon0 init.
@@ -108,7 +108,7 @@ Lemma mon_sim : forall s e s' m, Inv s -> step s e = Some s' -> mrel m s ->
 Proof.
   intros s [t l] s' [ms me mi mc] I H (R1 & R2 & R3 & R4).
   pose proof (tokens_bound s I) as T. pose proof (I_joined s I) as IJ.
-  destruct s as [lp0 sp0 lock0 args0 closing0 readers0 writers0 waker0 pend0 queue0 rdyr0 rdyw0 cbs0].
+  destruct s as [lp0 sp0 lock0 args0 closing0 readers0 writers0 waker0 pend0 queue0 rdyr0 rdyw0 cbs0 dead0].
   unfold tokens, tok_args, tok_sel, tok_loop, spawned in *. simpl in *. subst ms me mi mc.
   unfold step in H. simpl in H. destruct t.
   - (* event loop *)
